@@ -3,7 +3,7 @@ import glob
 import os
 import re
 
-from .. import common, flow, paths
+from .. import common, flow, paths, inline
 from ..facts import callee_def, callee_resolved, short
 from ..model import field_key, load_model, OUTPUT_SHAPE_ALIAS
 from ..report import AnchorMissing
@@ -482,7 +482,14 @@ def rule_r4(chk, db, model, impls):
     kb = db.body(SER + "set_keep_alive_xml_body")
     if kb is None:
         raise AnchorMissing("set_keep_alive_xml_body not found")
-    ser_calls = [callee_def(t) for _, t in kb.calls() if callee_def(t).startswith("s3s::xml::ser::Serializer")]
+    # (with the setter's helpers inlined, and looking into the closures it hands to them)
+    kbi = inline.inlined(db, kb)
+    fam = [kbi] + [x for x in db.nested(kb, include_self=False)]
+    for hn in getattr(kbi, "inlined_from", []):
+        hb = db.body(hn)
+        if hb is not None:
+            fam += db.nested(hb, include_self=False)
+    ser_calls = [callee_def(t) for x in fam for _, t in x.calls() if callee_def(t).startswith("s3s::xml::ser::Serializer")]
     chk.verdict(sorted(set(ser_calls)) == ["s3s::xml::ser::Serializer::<W>::decl", "s3s::xml::ser::Serializer::<W>::new"], "R4", "initial-body",
                 kb.loc(), "the keep-alive initial body must be exactly the XML declaration; serializer calls: %s" % sorted(set(ser_calls)))
 
